@@ -73,8 +73,11 @@ func program(l int) string { return programT(l, false) }
 func programT(l int, tally bool) string {
 	var b strings.Builder
 	if tally {
-		b.WriteString("c11g := 0\n")
+		// a global with the name of the sinks' own event variable: every
+		// invocation must still see its own event
+		b.WriteString("c11g := 0\nevent := {\"state\" : {\"id\" : -5, \"w\" : \"global\", \"pat\" : \"^$\", \"npat\" : \"^$\"}, \"name\" : \"global\", \"kind\" : \"none\"}\n")
 	}
+	b.WriteString("func c11h(x, y=2) {\n    return x + y\n}\n")
 	b.WriteString("func c11f(x) {\n    let y := x * 2\n    return y + 1\n}\n")
 	for k := 0; k < nSinks; k++ {
 		fmt.Fprintf(&b, "sink %s\n    kindmatch [ %q ],\n    priority %d\n{\n", sinkNames[k], sinkKind[k], sinkPrio[k])
@@ -97,12 +100,16 @@ func programT(l int, tally bool) string {
         }
     }
     fb := c11f(b + s)
+    w := event.state.w
+    l2 := [a, b + 2]
+    m2 := {"k" : a, "j" : [b]}
+    c11.rec2(%d, event.state.id, [w like event.state.pat, w like event.state.npat, "{{a}}:{{b + 1}}/{{w}}", l2[1], m2.k, len(m2.j), a in [b, -1], (a > -1) and (b == a), a %% 7, a // 1, -a, c11h(a), c11h(a, b), w, event.state.pat])
     c11.rec(%d, event.state.id, a, b, fa, fb, s, event.name, event.kind)
 %s    if event.state.f%d {
         raise(event.state.et, a, [b, %d])
     }
 }
-`, l, k, map[bool]string{true: "    mutex c11m {\n        c11g := c11g + 1\n    }\n", false: ""}[tally], k, k)
+`, l, k, k, map[bool]string{true: "    mutex c11m {\n        c11g := c11g + 1\n    }\n", false: ""}[tally], k, k)
 	}
 	return b.String()
 }
@@ -133,7 +140,8 @@ func (st *evState) addBad(s string) {
 }
 
 func (st *evState) state() map[interface{}]interface{} {
-	m := map[interface{}]interface{}{"id": st.id, "et": st.et}
+	m := map[interface{}]interface{}{"id": st.id, "et": st.et,
+		"w": "w" + fid(st.id), "pat": "^w" + fid(st.id) + "$", "npat": "^x" + fid(st.id) + "$"}
 	for k := 0; k < nSinks; k++ {
 		m[fmt.Sprintf("f%d", k)] = st.fail[k]
 	}
@@ -157,6 +165,7 @@ type scn struct {
 	overlaps [nSinks]int64
 	invoc    int64
 	echoes   int64
+	echoes2  int64    // c11.rec2 calls
 	returns  int64    // sink.beforereturn passages
 	waits    int64    // AddEventAndWait calls that returned
 	stacks   []string // parked goroutines of the last positive stuck evaluation (polling goroutine only)
@@ -180,12 +189,52 @@ func (recFunc) Run(_ string, _ parser.Scope, _ map[string]interface{}, tid uint6
 }
 func (recFunc) DocString() (string, error) { return "C11 echo", nil }
 
+// rec2Func receives the values of a list of expressions of other node kinds
+// (like with a pattern of the event's own, interpolation, list / map literals
+// and accesses, in, and, %, //, unary minus, calls with and without a default
+// parameter), all of them functions of the invocation's own event.
+type rec2Func struct{}
+
+func (rec2Func) Run(_ string, _ parser.Scope, _ map[string]interface{}, tid uint64, args []interface{}) (interface{}, error) {
+	if s := cur.Load(); s != nil {
+		s.rec2(tid, args)
+	}
+	return nil, nil
+}
+func (rec2Func) DocString() (string, error) { return "C11 echo of further node kinds", nil }
+
+func (s *scn) rec2(tid uint64, args []interface{}) {
+	atomic.AddInt64(&s.echoes2, 1)
+	if len(args) != 3 {
+		s.addUnknown(fmt.Sprintf("rec2 called with %d arguments: %v", len(args), args))
+		return
+	}
+	kf, ok1 := args[0].(float64)
+	id, ok2 := args[1].(float64)
+	if !ok1 || !ok2 || kf < 0 || kf >= nSinks {
+		s.addUnknown(fmt.Sprintf("rec2(%v)", args))
+		return
+	}
+	st := s.table[id]
+	if st == nil {
+		s.addUnknown(fmt.Sprintf("rec2 from sink %s with event.state.id=%v which was never issued (args %v)", sinkNames[int(kf)], id, args))
+		return
+	}
+	w := "w" + fid(id)
+	want := []interface{}{true, false, fid(id) + ":" + fid(id+1) + "/" + w, id + 2, id, float64(1), true, true,
+		float64(int(id) % 7), id, -id, id + 2, 2 * id, w, "^" + w + "$"}
+	if !reflect.DeepEqual(args[2], want) {
+		st.addBad(fmt.Sprintf("sink %s on thread %d echoed (like own pattern, like other pattern, interpolation, l[1], m.k, len, in, and, %%, //, -, h(a), h(a,b), w, pat)=%v, expected %v", sinkNames[int(kf)], tid, args[2], want))
+	}
+}
+
 var setupOnce sync.Once
 
 func setup() {
 	setupOnce.Do(func() {
 		stdlib.AddStdlibPkg("c11", "C11 monitor functions")
 		stdlib.AddStdlibFunc("c11", "rec", recFunc{})
+		stdlib.AddStdlibFunc("c11", "rec2", rec2Func{})
 	})
 }
 
@@ -700,6 +749,7 @@ func noiseScenario(c *core.Ctx, stream string, idx int) {
 	c.Event("events.fired", int64(len(s.table)))
 	c.Event("invocations.begun(hook)", atomic.LoadInt64(&s.invoc))
 	c.Event("invocations.echoed(rec)", atomic.LoadInt64(&s.echoes))
+	c.Event("invocations.echoed-further-node-kinds(rec2)", atomic.LoadInt64(&s.echoes2))
 	c.Event("invocations.dictated-to-fail", int64(nFail))
 	c.Event("overlap.same-sink(begin while another invocation of the sink is inside)", ov)
 	c.Event("pool.kicks", kicks)
@@ -918,6 +968,7 @@ func gateScenario(c *core.Ctx, stream string, idx int) {
 	c.Event("scenario."+stream, 1)
 	c.Event("invocations.begun(hook)", atomic.LoadInt64(&s.invoc))
 	c.Event("invocations.echoed(rec)", atomic.LoadInt64(&s.echoes))
+	c.Event("invocations.echoed-further-node-kinds(rec2)", atomic.LoadInt64(&s.echoes2))
 	c.AddEvals(int(atomic.LoadInt64(&s.echoes)))
 	sig := sched.Signature(t.Snapshot(), nil)
 	c.Nontrivial(core.Hash64(fmt.Sprintf("gate|%d|%x", idx%nGateCfg, sig)))
